@@ -10,6 +10,6 @@ trap 'git -C /repo checkout -- . ' EXIT
 cd /verif
 ./check "$ID" "$TIER"; RC=$?
 echo "mutate: $ID $(basename "$PATCH") exit=$RC"
-exit $RC
-# evidence/ holds the records of clean-tree runs only: drop what the runs against a modified tree wrote
+# evidence/ holds the records of clean-tree runs only: drop what the run against the modified tree wrote
 git -C /verif checkout -- evidence/ 2>/dev/null
+exit $RC
